@@ -166,6 +166,8 @@ impl<T: MetricTrait> LeapArray<T> {
                 The update lock is conditional (tiny scope) and will take effect only when
                 bucket is deprecated, so in most cases it won't lead to performance loss.
                  */
+                #[cfg(feature = "verif_hooks")]
+                crate::verif::sync::sync_point(2);
                 if self.mutex[idx].try_lock().is_ok() {
                     self.reset_bucket(idx, target_start);
                     return Ok(Arc::clone(&self.array[idx]));
